@@ -29,6 +29,9 @@ CHECKS = {
  "C09": dict(tech="TLC certifies observed coordinate constants against the exact second derivative of the documented loss (DataVec.tla, rational arithmetic); block/global constants against reference spectral norms as RelTrace facts (bound, tightness, sparse <= dense within power-method accuracy)",
              text="Constants are observed from the code and certified by TLC against the defining curvature inequality on exact data; global/block constants against eigenvalue references; Cox/sqrt Hessian accessors against dominance over lattice directions.", ref="6 C09",
              note="Trusted: numpy eigvalsh as the reference spectral norm; central differences of the oracle gradient for Cox curvature; Datafit.tla transcription."),
+ "C13": dict(tech="TLA+ model of the validation protocol (Validate.tla) over attribute tables introspected from the working tree: TLC enumerates all cells, predicts the _validate verdict (bound to the real one) and the accepted-but-missing-method cells; selected cells executed in isolated workers; outcomes judged by TLC (RelTrace facts + SolverTrace monitor)",
+             text="Model checking of the required-attribute protocol over the full composition matrix (14k cells with fit_intercept) + execution of predicted-late-failure cells and a stratified sample (all cells in the thorough tier): refusals must name a really missing method/structure, accepted cells must return finite values meeting the certificate, never die or hang.", ref="6 C13",
+             note="Trusted: the explained() vocabulary/regex for 'names the method or structure', the oracle for cert, isolation by process (death/timeout observed by the parent)."),
 }
 NA = []
 checks = []
